@@ -20,11 +20,12 @@ type writtenKey struct {
 }
 
 type faithCase struct {
-	comp    *comp
-	id      string
-	written []writtenKey
-	text    string
-	note    string
+	comp     *comp
+	id       string
+	spelling string // how the identifier is written in the document ("" = canonically)
+	written  []writtenKey
+	text     string
+	note     string
 }
 
 // documented deprecated aliases: writing the alias sets its (unwritten) target
@@ -61,6 +62,11 @@ func genFaithCase(c *driver.Ctx, rng *rand.Rand) *faithCase {
 	fc := &faithCase{comp: cp, id: cp.typ}
 	if cp.section != "service" && rng.Intn(3) == 0 {
 		fc.id = cp.typ + "/" + tok(rng, "n")
+	}
+	if cp.section != "service" && rng.Intn(6) == 0 {
+		// the identifier written with white space the parser of identifiers ignores ("otlp / backup", " otlp "): it
+		// is the same component, and what was written for it is its configuration
+		fc.spelling = []string{"spaces-around-slash", "outer-spaces"}[rng.Intn(2)]
 	}
 	chosen := map[int]bool{}
 	for k := rng.Intn(4); k > 0; k-- {
@@ -136,7 +142,21 @@ func (fc *faithCase) build(plain bool) {
 	for _, w := range fc.written {
 		confgen.SetPath(sec, w.leaf.Path, w.val.yaml)
 	}
-	fc.text = confgen.YAML(assemble(fc.comp, fc.id, sec), confgen.YAMLOpts{PlainStrings: plain})
+	fc.text = confgen.YAML(assemble(fc.comp, fc.spelled(), sec), confgen.YAMLOpts{PlainStrings: plain})
+}
+
+// spelled returns the identifier as it is written in the document.
+func (fc *faithCase) spelled() string {
+	switch fc.spelling {
+	case "spaces-around-slash":
+		if strings.Contains(fc.id, "/") {
+			return strings.Replace(fc.id, "/", " / ", 1)
+		}
+		return fc.id + " "
+	case "outer-spaces":
+		return " " + fc.id + "  "
+	}
+	return fc.id
 }
 
 func (fc *faithCase) keys() []string {
@@ -148,7 +168,7 @@ func (fc *faithCase) keys() []string {
 }
 
 func (fc *faithCase) witness(extra map[string]any) map[string]any {
-	o := map[string]any{"component": fc.comp.name(), "id": fc.id, "written_keys": fc.keys(), "yaml": fc.text}
+	o := map[string]any{"component": fc.comp.name(), "id": fc.id, "id_as_written": fc.spelled(), "written_keys": fc.keys(), "yaml": fc.text}
 	if fc.note != "" {
 		o["note"] = fc.note
 	}
@@ -284,7 +304,7 @@ func checkFaith(c *driver.Ctx, i int64, fc *faithCase, withCollector bool) {
 				}
 			}
 		}
-		text := confgen.YAML(assemble(fc.comp, fc.id, sec), confgen.YAMLOpts{PlainStrings: true})
+		text := confgen.YAML(assemble(fc.comp, fc.spelled(), sec), confgen.YAMLOpts{PlainStrings: true})
 		var ccfg *otelcol.Config
 		var cerr error
 		if pv, _ := driver.Catch(func() { ccfg, cerr = load(text) }); pv == nil && cerr == nil {
